@@ -20,6 +20,8 @@ CONFIGS = {
     "tls12_rsa": "cv=3 sv=3 suite=003c",
     "tls13_chacha": "cv=4 sv=4 suite=1303",
     "tls12_ec": "cv=3 sv=3 key=ec suite=c02b",
+    "tls13_big_cauth": "cv=4 sv=4 key=rsa4096 cauth=1 scb=1",
+    "tls12_big_cauth": "cv=3 sv=3 key=rsa4096 cauth=1 scb=1",
     # resumed handshakes: a full handshake first (phase before '|'), then a second session offering the saved id / ticket
     "tls12_resumed_id": "cv=3 sv=3 | resume=1 keepkeys=1",
     "tls12_resumed_ticket": "cv=3 sv=3 ticket=1 | resume=1 keepkeys=1",
